@@ -28,7 +28,7 @@ open RlModel
 inductive Hd where
   | filter | order | limit | topn | empty | join | hashjoin | mergejoin | apply | scan | values
   | proj | agg | window | hashagg | sortagg | list | ref | insert | delete | copyTo | analyze
-  | explain | indexScan | exists_ | in_
+  | explain | indexScan | exists_ | in_ | max1row
   | other (code : Nat)
   deriving DecidableEq, Repr
 
